@@ -211,6 +211,8 @@ def elem_expr(spec, e):
     if k == 'bind':
         return 'wire.Bind(new(%s), new(%s))' % (qual(spec, e['iface']), use_form(spec, e['impl']))
     if k == 'value':
+        if e.get('holder'):
+            return 'wire.Value(%sHold%s.V)' % ((spec['alias'][e['pkg']] + '.') if e.get('pkg') else '', e['type'])
         return 'wire.Value(%sVal%s)' % ((spec['alias'][e['pkg']] + '.') if e.get('pkg') else '', e['type'])
     if k == 'ifacevalue':
         return 'wire.InterfaceValue(new(%s), %sIval%s)' % (qual(spec, e['iface']), (spec['alias'][e['pkg']] + '.') if e.get('pkg') else '', e['iface'])
@@ -238,7 +240,10 @@ def needs_imports(spec, text):
     im = []
     for p, a in spec['alias'].items():
         if re.search(r'(?<![A-Za-z0-9_])' + a + r'\.', text):
-            im.append('\t%s "scratchw/%s/%s"' % (a, spec['id'], p))
+            if a == p.split('/')[-1]:
+                im.append('\t"scratchw/%s/%s"' % (spec['id'], p))       # no alias where the package name says it all
+            else:
+                im.append('\t%s "scratchw/%s/%s"' % (a, spec['id'], p))
     return im
 
 
@@ -262,7 +267,9 @@ def write_pkg(spec, root):
             if f.get('pkg', '') == p:
                 body += emit_func(spec, f, p) + '\n'
         for e in spec['elems']:
-            if e.get('pkg') == p and e['kind'] == 'value':
+            if e.get('pkg') == p and e['kind'] == 'value' and e.get('holder'):
+                body += 'var Hold%s = struct{ V %s }{V: %s("val:%s")}\n' % (e['type'], use_form_in(spec, e['type'], p), mk_name(spec, e['type'], p), e['type'])
+            elif e.get('pkg') == p and e['kind'] == 'value':
                 body += 'var Val%s = %s("val:%s")\n' % (e['type'], mk_name(spec, e['type'], p), e['type'])
             elif e.get('pkg') == p and e['kind'] == 'ifacevalue':
                 body += 'var Ival%s = %s("ival:%s")\n' % (e['iface'], mk_name(spec, e['impl'], p), e['iface'])
@@ -283,7 +290,9 @@ def write_pkg(spec, root):
     for e in spec['elems']:
         if e.get('pkg'):
             continue
-        if e['kind'] == 'value':
+        if e['kind'] == 'value' and e.get('holder'):
+            body += 'var Hold%s = struct{ V %s }{V: %s("val:%s")}\n' % (e['type'], use_form_in(spec, e['type'], ''), mk_name(spec, e['type'], ''), e['type'])
+        elif e['kind'] == 'value':
             body += 'var Val%s = %s("val:%s")\n' % (e['type'], mk_name(spec, e['type'], ''), e['type'])
         elif e['kind'] == 'ifacevalue':
             body += 'var Ival%s = %s("ival:%s")\n' % (e['iface'], mk_name(spec, e['impl'], ''), e['iface'])
@@ -448,7 +457,7 @@ def random_spec(rng, sid, nmin=3, nmax=6, external=False, decoy=False, struct_va
     elems = []
     produced = []   # abstract types available
     args = []
-    alias = {'a/util': 'util', 'b/util': 'butil', 'c/vals': 'vals', 'c/ifs': 'ifs', 'c/extra': 'extra'} if external else {}
+    alias = {'a/util': 'util', 'b/util': 'butil', 'c/vals': 'vals', 'c/ifs': 'ifs', 'c/extra': 'extra', 'd/v2': 'v2'} if external else {}
     nT = [0]
     twin_done = [False]
     map_done = [False]
@@ -494,7 +503,8 @@ def random_spec(rng, sid, nmin=3, nmax=6, external=False, decoy=False, struct_va
             # injected constant (a variable of the main package, or an exported variable of a sub-package)
             vpkg = rng.choice(['a/util', 'c/vals', 'c/vals']) if external and rng.random() < 0.7 else ''
             t = new_type(pkg=vpkg)
-            elems.append({'kind': 'value', 'type': t, 'pkg': vpkg})
+            # the value may be reached through a longer selector chain: pkg.HoldT.V
+            elems.append({'kind': 'value', 'type': t, 'pkg': vpkg, 'holder': rng.random() < 0.5})
             produced.append(t)
             continue
         if r < 0.2:
@@ -578,7 +588,7 @@ def random_spec(rng, sid, nmin=3, nmax=6, external=False, decoy=False, struct_va
             continue
         pkg = ''
         if external and rng.random() < 0.5:
-            pkg = rng.choice(['a/util', 'b/util'])
+            pkg = rng.choice(['a/util', 'b/util', 'd/v2'])
         t = new_type(pkg=pkg)
         bind = rng.random() < (0.55 if external else 0.3) and types[t]['form'] == 'ptr'
         if bind and rng.random() < 0.5:
